@@ -97,6 +97,43 @@ pub fn jobs(tier: Tier, seed: u64) -> Vec<Job> {
         let env = if var_state.is_empty() { vec![] } else { vec![("BPAFMC_C20", var_state)] };
         out.push(Job { opts: o, alpha: toks(&["--level=1", "--level", "2", "--name=bob", "-s", "--help"]), len: 3, env });
     }
+    // wrappers that swallow a failure after the inner parser consumed something (catch, groups
+    // that give up half way, non-strict positionals): the restore of the argument state sits
+    // next to feature-gated completion bookkeeping
+    for v in crate::checks::c06::C06.units(Tier::Quick, seed).into_iter().step_by(tier.pick(11, 3)) {
+        if v.get("group").is_some() {
+            continue;
+        }
+        let d: crate::checks::c06::Def = serde_json::from_value(v).unwrap();
+        if d.prim == crate::checks::c06::Prim::EnvArg {
+            continue;
+        }
+        out.push(Job { opts: crate::checks::c06::to_opts(&d), alpha: crate::checks::c06::alphabet_for(&d), len: 3, env: vec![] });
+    }
+    for (o, alpha) in crate::checks::c05::loose_groups() {
+        out.push(Job { opts: o, alpha, len: tier.pick(3, 4), env: vec![] });
+    }
+    for (i, t) in crate::checks::c09::pos_tails().into_iter().enumerate() {
+        if t.is_empty() || (tier == Tier::Quick && i % 3 != 0 && !t.iter().any(|p| p.strict == Strict::NonStrict)) {
+            continue;
+        }
+        let l = fam::leaf(vec![fam::named(0, Kind::Switch, 1, seed)], Tail::Pos(t));
+        let alpha = crate::checks::c09::c09_alphabet(&l).into_iter().filter(|t| t.0 != crate::checks::c09::RESERVED.as_bytes()).collect();
+        out.push(Job { opts: l.to_opts(), alpha, len: tier.pick(3, 4), env: vec![] });
+    }
+    // the same command name in two branches, same one-line help, different descriptions: the
+    // help listing de-duplicates them (the command item carries docgen-only data)
+    for (da, db) in [("Build it\n\nfirst variant", "Build it\n\nsecond variant"), ("Build it", "Build it"), ("Build it\n\nsame", "Build it\n\nsame")] {
+        let mk = |descr: &str, sw: char| {
+            let mut inner = Opts::new(P::Seq(vec![P::ReqFlag(Names::short(sw))]));
+            inner.cfg.descr = Some(DocSpec::plain(descr));
+            P::Cmd { name: "build".into(), shorts: vec![], longs: vec![], inner: Box::new(inner), adjacent: false, help: None }
+        };
+        let o = Opts::new(P::Seq(vec![P::Switch(Names::short('v')), P::Alt(vec![mk(da, 'x'), mk(db, 'y')])]));
+        out.push(Job { opts: o.clone(), alpha: toks(&["build", "-x", "-y", "-v", "--help"]), len: 3, env: vec![] });
+        let g = Opts::new(P::Seq(vec![P::GroupHelp(o.p.clone().bx(), DocSpec::plain("Commands in a group"))]));
+        out.push(Job { opts: g, alpha: toks(&["build", "-x", "-y", "--help"]), len: 2, env: vec![] });
+    }
     for o in crate::docfam::doc_defs(2).into_iter().step_by(tier.pick(9, 2)) {
         let mut alpha = crate::shape::shape_alphabet(&o);
         alpha.retain(|t| t.0 != b"w");
